@@ -208,3 +208,33 @@ Print Assumptions C01_api_covered.
 Theorem C01_dict_mutators_overridden : gen_dict_mutators_inherited = [].
 Proof. reflexivity. Qed.
 Print Assumptions C01_dict_mutators_overridden.
+
+(* ---- sanity laws of the reference, for ALL operations ---------------------------------------------- *)
+From Boltons Require Import Proofs.C01_SpecLaws.
+
+(* frame: an operation never alters or reorders the pairs of keys it does not mention *)
+Theorem C01_spec_frame : forall self other o,
+  remove_keys (fst (spec_step self other o)) (touched self other o)
+  = remove_keys self (touched self other o).
+Proof. exact spec_frame. Qed.
+Print Assumptions C01_spec_frame.
+
+Theorem C01_spec_frame_vals : forall self other o k,
+  ~ In k (touched self other o) -> vals_of (fst (spec_step self other o)) k = vals_of self k.
+Proof. exact spec_frame_vals. Qed.
+Print Assumptions C01_spec_frame_vals.
+
+(* assignment replaces all of a key's pairs by one pair placed last; add appends *)
+Theorem C01_spec_setitem_add : forall self other k v,
+  (vals_of (fst (spec_step self other (SetItem k v))) k = [v] /\
+   exists l', fst (spec_step self other (SetItem k v)) = l' ++ [(k, v)]) /\
+  vals_of (fst (spec_step self other (Add k v))) k = vals_of self k ++ [v].
+Proof. exact (fun self other k v => conj (spec_vals_setitem self other k v) (spec_vals_add self other k v)). Qed.
+Print Assumptions C01_spec_setitem_add.
+
+(* poplast(k) removes exactly the key's most recent value and returns it *)
+Theorem C01_spec_poplast : forall self other k d, has_key self k = true ->
+  vals_of (fst (spec_step self other (PopLast (Some k) d))) k = removelast (vals_of self k) /\
+  snd (spec_step self other (PopLast (Some k) d)) = Ok (OVal (last (vals_of self k) none_tok)).
+Proof. exact spec_vals_poplast. Qed.
+Print Assumptions C01_spec_poplast.
